@@ -302,6 +302,7 @@ def c01_rf18(run):
     rf_flow.rf32t(run)
     run.min_instances('RF32t', 56)
     rf_flow.rf97(run)
+    rf_flow.rf99(run)
     rf_flow.rf67(run, units=('gen',))
 
 
